@@ -118,7 +118,8 @@ type WorkerOut struct {
 	WallS        float64           `json:"wall_s"`
 	Samples      []*Plan           `json:"samples"`
 	SiteHits     []uint32          `json:"site_hits"`
-	Hashes       map[string]string `json:"hashes"` // run index -> event hash (sampled)
+	Hashes       map[string]string `json:"hashes"`  // run index -> outcome hash (sampled)
+	SHashes      map[string]string `json:"shashes"` // run index -> schedule hash (sampled)
 	RaceBuild    bool              `json:"race_build"`
 	CutShort     bool              `json:"cut_short"`
 	LastIndex    int               `json:"last_index"`
@@ -252,7 +253,7 @@ func runBatch(t *testing.T) {
 	start := time.Now()
 	w := &WorkerOut{Property: p.ID(), Seed: *fSeed, From: *fFrom, To: *fTo, Stride: *fStride,
 		ClassCounts: map[string]int{}, Faults: map[string]int{}, Probes: map[string]int{}, Observations: map[string]int{},
-		Hashes: map[string]string{}, RaceBuild: RaceBuild}
+		Hashes: map[string]string{}, SHashes: map[string]string{}, RaceBuild: RaceBuild}
 	sigs := map[uint64]struct{}{}
 	states := map[uint64]struct{}{}
 	scheds := map[uint64]struct{}{}
@@ -312,6 +313,7 @@ func runBatch(t *testing.T) {
 		w.SimTimeNs += float64(out.SimTimeNs)
 		if *fHashEv > 0 && idx%*fHashEv == 0 {
 			w.Hashes[fmt.Sprint(idx)] = fmt.Sprintf("%016x", out.Events.Sum())
+			w.SHashes[fmt.Sprint(idx)] = fmt.Sprintf("%016x", out.Sched.Sum())
 		}
 		if first == nil {
 			first = plan
